@@ -738,9 +738,16 @@ impl Interface {
                     EgressError::Exhausted
                 })?;
 
-                inner
-                    .dispatch_ip(t, meta, response, &mut self.fragmenter)
-                    .map_err(|_| EgressError::Dispatch)?;
+                match inner.dispatch_ip(t, meta, response, &mut self.fragmenter) {
+                    Ok(()) => (),
+                    // There is no route to the destination and retrying will not help: the
+                    // packet is dropped, like any packet the network cannot deliver, instead
+                    // of blocking everything queued behind it.
+                    Err(DispatchError::NoRoute) => {
+                        net_debug!("failed to transmit IP: no route, dropping the packet");
+                    }
+                    Err(DispatchError::NeighborPending) => return Err(EgressError::Dispatch),
+                }
 
                 result = PollResult::SocketStateChanged;
 
